@@ -1241,6 +1241,18 @@ func c13EngineAnalyzer(ctx *Ctx) {
 			dir2 = filepath.Join(mid, "sub")
 			ctx.R.Path("dirs-twin-inside-other-projects", 1)
 		}
+		if cw := ctx.Dict().ContextWords; twin && outer == "" && len(cw) > 0 {
+			// the twin directory is NAMED like something the analyser knows (a marker, a project type, a tool): k8s, docker,
+			// node_modules, my-kubernetes-cluster ... - the report is a function of the listing, not of the directory's own name
+			w := strings.TrimLeft(cw[r.Intn(len(cw))], ".")
+			if w != "" {
+				name := []string{w, w, "my-" + w + "-cluster", w + "-files", strings.ToUpper(w)}[r.Intn(5)]
+				outer = filepath.Join(ctx.Scratch, fmt.Sprintf("c13named_%d", i))
+				os.MkdirAll(outer, 0o755)
+				dir2 = filepath.Join(outer, name)
+				ctx.R.Path("dirs-twin-named-like-something-the-analyser-knows", 1)
+			}
+		}
 		os.RemoveAll(dir)
 		if err := c13WriteDir(dir, ents, false); err != nil {
 			ctx.R.Inconcl("cannot-create-directory")
